@@ -213,6 +213,7 @@ def run(run):
     run.floor('C04.f', 4)
     from gen import static_units as _su
     run.guard('configuration setters', _su.report, run, 'C04.e', _su.config_unit('C04.e'))      # the configured value survives every order of the setters
+    run.guard('configuration setters', _su.report, run, 'C04.e', _su.config_unit('C04.e', plans=False))      # ... with and without the plan feature
     run.floor('C04.e', 1)
     run.explanation = (
         'Counted-loop rule on both substitution loops for limits {1,2,3,4,255} (and every witness machine), one guard round '
